@@ -1,0 +1,130 @@
+//! Verification hooks (cargo feature `verif-hooks`, off by default).
+//!
+//! * `set_hook` installs a process-wide callback that is invoked at the schedule points listed in
+//!   [`site`]. The callback may block (that is how a test harness owns the schedule) and may
+//!   record events. The hook pointer is read with `Relaxed` ordering on purpose: it must not add
+//!   happens-before edges that could mask a data race from a race detector.
+//! * [`RawVec`] and [`par_quicksort`] expose the crate-private item vector and parallel sort.
+
+use std::sync::atomic::{AtomicBool, AtomicUsize, Ordering};
+
+use crate::{boxcar, Item, Utf32String};
+
+/// A schedule point callback: `(site, argument)`.
+pub type Hook = fn(u32, u64);
+
+static HOOK: AtomicUsize = AtomicUsize::new(0);
+
+/// Installs (or removes) the process-wide hook.
+pub fn set_hook(hook: Option<Hook>) {
+    HOOK.store(hook.map_or(0, |h| h as usize), Ordering::Relaxed);
+}
+
+#[inline]
+pub(crate) fn point(site: u32, arg: u64) {
+    let hook = HOOK.load(Ordering::Relaxed);
+    if hook != 0 {
+        // safety: only ever set from a valid `Hook` in `set_hook`
+        let hook: Hook = unsafe { std::mem::transmute::<usize, Hook>(hook) };
+        hook(site, arg)
+    }
+}
+
+/// Identifiers of the schedule points.
+pub mod site {
+    // boxcar (argument: item index unless noted)
+    pub const BOXCAR_PUSH_RESERVE: u32 = 1; // before the index is reserved (arg 0)
+    pub const BOXCAR_PUSH_RESERVED: u32 = 2;
+    pub const BOXCAR_BUCKET_LOAD: u32 = 3; // before a writer loads its bucket pointer
+    pub const BOXCAR_PUBLISH: u32 = 4; // before the entry is marked active
+    pub const BOXCAR_EXTEND_RESERVE: u32 = 5; // arg: reported count
+    pub const BOXCAR_EXTEND_RESERVED: u32 = 6; // arg: start index
+    pub const BOXCAR_CAS: u32 = 7; // before the bucket CAS (arg: bucket len)
+    pub const BOXCAR_CAS_DONE: u32 = 8; // arg: 1 if this thread installed the bucket
+    pub const BOXCAR_GET_LOAD: u32 = 9; // before a reader loads the bucket pointer
+    pub const BOXCAR_GET_ACTIVE: u32 = 10; // before a reader loads the active flag
+    pub const BOXCAR_COUNT: u32 = 11;
+    pub const BOXCAR_SNAPSHOT: u32 = 12; // before a snapshot loads the counter (arg: start)
+    pub const BOXCAR_ITER_LOAD: u32 = 13; // before the snapshot iterator loads a bucket pointer
+    pub const BOXCAR_PUBLISHED: u32 = 14; // after the entry was marked active
+    /// `get_unchecked` was asked for an entry that is not initialised
+    pub const FATAL_UNINIT: u32 = 15;
+    // worker::run
+    pub const RUN_START: u32 = 20;
+    pub const RUN_AFTER_RESET: u32 = 21;
+    pub const RUN_AFTER_SCAN: u32 = 22; // before the sort (arg: number of matches incl. placeholders)
+    pub const RUN_AFTER_SORT: u32 = 23; // arg: 1 if cancelled
+    pub const RUN_BEFORE_NOTIFY_READ: u32 = 24;
+    pub const RUN_AFTER_NOTIFY: u32 = 25; // arg: 1 if notify was called
+    pub const RUN_END: u32 = 26;
+    pub const INFLIGHT_PUSH: u32 = 27; // before an in-flight index is recorded (arg: index)
+    pub const RUN_SCORE_ITEM: u32 = 28; // before an item of the snapshot is scored (arg: index)
+                                        // Nucleo::tick
+    pub const TICK_AFTER_CLEAR: u32 = 40;
+    pub const TICK_BEFORE_BLOCKING_LOCK: u32 = 41;
+    pub const TICK_TRYLOCK_FAILED: u32 = 42;
+    pub const TICK_AFTER_REARM: u32 = 43;
+    pub const TICK_AFTER_SPAWN: u32 = 44;
+    pub const TICK_LOCKED: u32 = 45; // arg: 1 if the finished run is published to the snapshot
+                                     // par_sort branch counters
+    pub const SORT_HEAPSORT: u32 = 60;
+    pub const SORT_PARTIAL_INSERTION: u32 = 61;
+    pub const SORT_PARTITION_EQUAL: u32 = 62;
+    pub const SORT_BREAK_PATTERNS: u32 = 63;
+    pub const SORT_JOIN: u32 = 64;
+    pub const SORT_CANCEL_SEEN: u32 = 65;
+    pub const SORT_INSERTION: u32 = 66;
+}
+
+/// Facade over the crate-private lock-free item vector.
+pub struct RawVec<T>(boxcar::Vec<T>);
+
+impl<T> RawVec<T> {
+    pub fn with_capacity(capacity: u32, columns: u32) -> Self {
+        RawVec(boxcar::Vec::with_capacity(capacity, columns))
+    }
+    pub fn push(&self, value: T, fill_columns: impl FnOnce(&T, &mut [Utf32String])) -> u32 {
+        self.0.push(value, fill_columns)
+    }
+    pub fn extend<I>(&self, values: I, fill_columns: impl Fn(&T, &mut [Utf32String]))
+    where
+        I: IntoIterator<Item = T> + ExactSizeIterator,
+    {
+        self.0.extend(values, fill_columns)
+    }
+    pub fn get(&self, index: u32) -> Option<Item<'_, T>> {
+        self.0.get(index)
+    }
+    pub fn count(&self) -> u32 {
+        self.0.count()
+    }
+    pub fn columns(&self) -> u32 {
+        self.0.columns()
+    }
+    /// Sequential snapshot scan starting at `start`: `(index, item if initialised)`.
+    pub fn snapshot(&self, start: u32) -> Vec<(u32, Option<Item<'_, T>>)> {
+        unsafe { self.0.snapshot(start).collect() }
+    }
+}
+
+impl<T: Send + Sync> RawVec<T> {
+    /// Parallel snapshot scan (on the current rayon pool).
+    pub fn par_snapshot(&self, start: u32) -> Vec<(u32, bool)> {
+        use rayon::prelude::*;
+        unsafe {
+            self.0
+                .par_snapshot(start)
+                .map(|(idx, item)| (idx, item.is_some()))
+                .collect()
+        }
+    }
+}
+
+/// The crate-private cancellable parallel sort.
+pub fn par_quicksort<T, F>(v: &mut [T], is_less: F, canceled: &AtomicBool) -> bool
+where
+    T: Send,
+    F: Fn(&T, &T) -> bool + Sync,
+{
+    crate::par_sort::par_quicksort(v, is_less, canceled)
+}
